@@ -592,3 +592,249 @@ Proof.
   induction cs as [|c cs IH]; intros st t; cbn [map run_gaps run_seq]; [reflexivity|].
   rewrite Z.add_0_r. destruct (take p st t c) as [st' w]. now rewrite IH.
 Qed.
+
+(* ------------------------------------------------------------ never released early *)
+(* The ledger: K = everything requested so far.  What the bucket holds (negative: what the waiters still
+   owe) plus K never exceeds the initial content plus the refill up to the tick the state was last
+   adjusted to.  One request keeps the ledger, and its own release tick R satisfies K + c <= capacity +
+   quantum * R WHATEVER the wait is: the wait is computed from the debt, with no upper limit. *)
+Lemma ledger_step : forall p st now c K, wf p -> 0 < c -> 0 <= now ->
+  avail st <= capacity p -> ltick st <= now / fillInterval p ->
+  avail st + K <= capacity p + ltick st * quantum p ->
+  let st' := fst (take p st now c) in
+  let w := snd (take p st now c) in
+  avail st' <= capacity p /\ ltick st' = now / fillInterval p /\
+  avail st' + (K + c) <= capacity p + ltick st' * quantum p /\
+  K + c <= capacity p + quantum p * ((now + w) / fillInterval p).
+Proof.
+  intros p st now c K Hwf Hc Hnow Hcap HL Hled st' w.
+  pose proof (take_facts p st now c Hwf Hc Hnow) as (Est & _ & Hr & _ & Hbal & _).
+  pose proof (adjust_uncapped p st (now / fillInterval p) Hwf Hcap HL) as Hun.
+  pose proof (adjust_le_cap p st (now / fillInterval p) Hcap) as Hle.
+  fold st' in Est, Hr, Hbal. fold w in Hr.
+  rewrite Hr. unfold bal in Hbal. rewrite Est in Hbal |- *. cbn [avail ltick] in *.
+  set (T := now / fillInterval p) in *. set (Av := avail (adjust p st T)) in *.
+  set (R := rel p (mkB (Av - c) T)) in *. clearbody R Av T.
+  repeat split; try lia; nia.
+Qed.
+
+Lemma never_early_gen : forall p reqs st lb K, wf p -> 0 <= lb ->
+  avail st <= capacity p -> ltick st <= lb / fillInterval p ->
+  avail st + K <= capacity p + ltick st * quantum p ->
+  sorted_from lb reqs -> Forall (fun tc => 0 < snd tc) reqs ->
+  Forall (fun rK => snd rK <= capacity p + quantum p * (fst rK / fillInterval p))
+         (cumulate K (run p st reqs)).
+Proof.
+  intros p reqs. induction reqs as [|[t c] r IH]; intros st lb K Hwf Hlb Hcap HL Hled Hs Hpos; cbn [run cumulate]; [constructor|].
+  destruct Hs as [Ht Hs]. inversion Hpos as [|x l Hc Hpos']; subst x l. cbn [snd] in Hc.
+  assert (HL' : ltick st <= t / fillInterval p).
+  { etransitivity; [exact HL|]. apply div_mono; [apply Hwf | exact Ht]. }
+  pose proof (ledger_step p st t c K Hwf Hc ltac:(lia) Hcap HL' Hled) as (H1 & H2 & H3 & H4).
+  destruct (take p st t c) as [st' w]. cbn [fst snd] in *. cbn [cumulate].
+  constructor; [cbn [fst snd]; exact H4|].
+  apply (IH st' t (K + c)); try assumption; lia.
+Qed.
+
+(* EVERY request sequence (non-decreasing request times, positive sizes - NO bound on the sizes, hence
+   none on the waits): the request that completes the first K requested bytes is released in a tick R
+   with K <= capacity + quantum * R. *)
+Theorem never_early : forall p reqs, wf p -> sorted_from 0 reqs -> Forall (fun tc => 0 < snd tc) reqs ->
+  Forall (fun rK => snd rK <= capacity p + quantum p * (fst rK / fillInterval p))
+         (cumulate 0 (run p (binit p) reqs)).
+Proof.
+  intros p reqs Hwf Hs Hpos.
+  apply (never_early_gen p reqs (binit p) 0 0); try assumption; cbn [binit avail ltick]; try lia.
+  rewrite Z.div_0_l; [lia | destruct Hwf as (_ & _ & HF); lia].
+Qed.
+
+Lemma run_times_nonneg : forall p reqs st lb K, wf p -> 0 <= lb -> sorted_from lb reqs ->
+  Forall (fun tc => 0 < snd tc) reqs ->
+  Forall (fun rK => 0 <= fst rK) (cumulate K (run p st reqs)).
+Proof.
+  intros p reqs. induction reqs as [|[t c] r IH]; intros st lb K Hwf Hlb Hs Hpos; cbn [run cumulate]; [constructor|].
+  destruct Hs as [Ht Hs]. inversion Hpos as [|x l Hc Hpos']; subst x l. cbn [snd] in Hc.
+  pose proof (take_facts p st t c Hwf Hc ltac:(lia)) as (_ & Hw & _).
+  destruct (take p st t c) as [st' w]. cbn [fst snd] in *. cbn [cumulate].
+  constructor; [cbn [fst]; lia|]. apply (IH st' t); [exact Hwf | lia | exact Hs | exact Hpos'].
+Qed.
+
+(* in rate terms: ... released no earlier than (K - rate) / (1.01 rate) seconds after the bucket was made *)
+Theorem never_early_rate : forall rate p reqs, wf p -> 0 < rate -> capacity p = rate -> within_1pct rate p ->
+  sorted_from 0 reqs -> Forall (fun tc => 0 < snd tc) reqs ->
+  Forall (fun rK => 0 <= fst rK /\ 100 * 1000000000 * (snd rK - rate) <= 101 * rate * fst rK)
+         (cumulate 0 (run p (binit p) reqs)).
+Proof.
+  intros rate p reqs Hwf Hrate Hcap H1 Hs Hpos.
+  pose proof (never_early p reqs Hwf Hs Hpos) as H.
+  pose proof (run_times_nonneg p reqs (binit p) 0 0 Hwf ltac:(lia) Hs Hpos) as Hnn.
+  destruct Hwf as (Hc0 & Hq & HF). unfold within_1pct in H1. rewrite Hcap in H.
+  rewrite Forall_forall in *. intros [r K] Hin. specialize (H _ Hin). specialize (Hnn _ Hin). cbn [fst snd] in *.
+  split; [exact Hnn|].
+  set (F := fillInterval p) in *. set (q := quantum p) in *.
+  assert (Hk0 : 0 <= r / F) by (apply Z.div_pos; lia).
+  assert (HkF : F * (r / F) <= r) by (apply Z.mul_div_le; lia).
+  assert (Hq1 : 100 * 1000000000 * q <= 101 * rate * F) by lia.
+  set (k := r / F) in *. clearbody k F q.
+  transitivity (100 * 1000000000 * (q * k)); [lia|].
+  transitivity (101 * rate * F * k); [nia|]. nia.
+Qed.
+
+(* ------------------------------------------------------------ from the moment the bucket is made *)
+Lemma positive_counts_in : forall reqs, Forall (fun tc : Z * Z => 0 < snd tc) reqs -> exists m, counts_in m reqs.
+Proof.
+  induction 1 as [|[t c] l Hc _ [m IH]]; [exists 0; constructor|]. cbn [snd] in Hc.
+  exists (Z.max c m). constructor; [cbn [snd]; lia|].
+  eapply Forall_impl; [|exact IH]. cbn beta. intros a Ha. lia.
+Qed.
+
+(* everything released up to time e, counted from the creation of the bucket, is covered by the initial
+   content and the refill: NO term for the largest message here - for intervals that begin when the
+   valve is made the property's literal bound holds, whatever the message sizes *)
+Theorem from_start : forall p reqs e, wf p -> 0 <= e -> sorted_from 0 reqs -> Forall (fun tc => 0 < snd tc) reqs ->
+  released 0 e (run p (binit p) reqs) <= capacity p + quantum p * (e / fillInterval p).
+Proof.
+  intros p reqs e Hwf He Hs Hpos.
+  destruct (positive_counts_in reqs Hpos) as [m Hm].
+  assert (HF : 0 < fillInterval p) by apply Hwf. assert (Hq : 0 < quantum p) by apply Hwf.
+  assert (Hc0 : 0 < capacity p) by apply Hwf.
+  assert (Hb0 : 0 <= e / fillInterval p) by (apply Z.div_pos; lia).
+  rewrite released_sum_if.
+  transitivity (sum_if (fun r => r / fillInterval p <=? e / fillInterval p) (run p (binit p) reqs)).
+  { apply sum_if_mono. pose proof (run_counts p reqs (binit p) m Hm) as Hc.
+    rewrite Forall_forall in *. intros rc Hin. specialize (Hc rc Hin). split; [lia|].
+    intro H. apply andb_true_iff in H as [H1 H2].
+    pose proof (div_mono (fst rc) e _ HF ltac:(lia)). lia. }
+  destruct reqs as [|[t1 c1] rest]; [cbn [run sum_if]; nia|].
+  pose proof (acc p ((t1, c1) :: rest) (binit p) 0 (e / fillInterval p) m Hwf ltac:(lia)) as Hacc.
+  cbn [binit avail ltick] in Hacc. rewrite Z.div_0_l in Hacc by lia.
+  specialize (Hacc ltac:(lia) ltac:(lia) Hs Hm). cbv beta iota in Hacc.
+  destruct Hs as [Ht Hs]. inversion Hm as [|x l Hcp Hm']; subst x l. cbn [snd] in Hcp.
+  destruct (Z.le_gt_cases (rel p (fst (take p (binit p) t1 c1))) (e / fillInterval p)) as [Hin|Hout].
+  - specialize (Hacc Hin).
+    pose proof (adjust_le_cap p (binit p) (t1 / fillInterval p)) as HA. cbn [binit avail] in HA. specialize (HA ltac:(lia)).
+    assert (HT : 0 <= t1 / fillInterval p) by (apply Z.div_pos; lia).
+    fold (binit p) in HA. cbn [binit] in Hacc |- *.
+    set (X := sum_if _ _) in *. set (A := avail _) in *. clearbody X A. nia.
+  - pose proof (take_facts p (binit p) t1 c1 Hwf ltac:(lia) ltac:(lia)) as (Est & _ & Hr & _).
+    pose proof (run_ge p rest (fst (take p (binit p) t1 c1)) t1 Hwf ltac:(lia)) as Hge.
+    cbn [run]. destruct (take p (binit p) t1 c1) as [st1 w1]. cbn [fst snd] in *.
+    assert (Hcap1 : avail st1 <= capacity p).
+    { rewrite Est. cbn [avail]. pose proof (adjust_le_cap p (binit p) (t1 / fillInterval p)) as HA.
+      cbn [binit avail] in HA. specialize (HA ltac:(lia)). cbn [binit]. lia. }
+    specialize (Hge Hcap1 ltac:(rewrite Est; cbn [ltick]; lia) Hs (or_intror (ex_intro _ m Hm'))).
+    rewrite sum_if_none; [nia|]. constructor; [cbn [fst]; lia|].
+    eapply Forall_impl; [|exact Hge]. intros rc Hrc. cbn beta in *. lia.
+Qed.
+
+Theorem from_start_rate : forall rate p reqs e, wf p -> 0 < rate -> capacity p = rate -> within_1pct rate p ->
+  0 <= e -> sorted_from 0 reqs -> Forall (fun tc => 0 < snd tc) reqs ->
+  100 * 1000000000 * released 0 e (run p (binit p) reqs) <= 101 * rate * e + 100 * 1000000000 * rate.
+Proof.
+  intros rate p reqs e Hwf Hrate Hcap H1 He Hs Hpos.
+  pose proof (from_start p reqs e Hwf He Hs Hpos) as B. rewrite Hcap in B.
+  destruct Hwf as (Hc & Hq & HF). unfold within_1pct in H1.
+  set (F := fillInterval p) in *. set (q := quantum p) in *.
+  assert (Hk0 : 0 <= e / F) by (apply Z.div_pos; lia).
+  assert (HkF : F * (e / F) <= e) by (apply Z.mul_div_le; lia).
+  assert (Hq1 : 100 * 1000000000 * q <= 101 * rate * F) by lia.
+  set (k := e / F) in *. set (X := released _ _ _) in *. clearbody k F q X.
+  assert (100 * 1000000000 * (q * k) <= 101 * rate * e).
+  { transitivity (101 * rate * F * k); [nia|]. nia. }
+  lia.
+Qed.
+
+(* ------------------------------------------------------------ back-to-back requests: the wait grows without limit *)
+Lemma cumulate_run_repeat : forall p n k st K i r K',
+  nth_error (cumulate K (run p st (repeat (0, n) k))) i = Some (r, K') -> K' = K + (Z.of_nat i + 1) * n.
+Proof.
+  intros p n k. induction k as [|k IH]; intros st K i r K' H; cbn [repeat run cumulate] in H.
+  - destruct i; discriminate.
+  - destruct (take p st 0 n) as [st' w]. cbn [cumulate] in H. destruct i as [|i]; cbn [nth_error] in H.
+    + injection H as _ <-. lia.
+    + apply IH in H. lia.
+Qed.
+
+Lemma cumulate_run_repeat_ex : forall p n k st K,
+  exists r, nth_error (cumulate K (run p st (repeat (0, n) (S k)))) k = Some (r, K + (Z.of_nat k + 1) * n).
+Proof.
+  intros p n k. induction k as [|k IH]; intros st K.
+  - cbn [repeat run]. destruct (take p st 0 n) as [st' w]. cbn [cumulate nth_error]. eexists. f_equal. f_equal. lia.
+  - change (repeat (0, n) (S (S k))) with ((0, n) :: repeat (0, n) (S k)). cbn [run].
+    destruct (take p st 0 n) as [st' w]. cbn [cumulate nth_error].
+    destruct (IH st' (K + n)) as [r Hr]. exists r. rewrite Hr. f_equal. f_equal. lia.
+Qed.
+
+Lemma sorted_repeat0 : forall n k, sorted_from 0 (repeat (0, n) k).
+Proof. induction k; cbn [repeat sorted_from]; [exact I | split; [lia | exact IHk]]. Qed.
+
+Lemma positive_repeat : forall n k, 0 < n -> Forall (fun tc : Z * Z => 0 < snd tc) (repeat (0, n) k).
+Proof. induction k; intros; cbn [repeat]; constructor; auto. Qed.
+
+(* k requests of n bytes each, all issued at time 0 (k blocked senders, or one sender's backlog): the
+   i-th (counting from 0) has K = (i+1)*n bytes requested up to and including itself and is released at
+   a time r with (K - capacity) * fillInterval <= quantum * r, i.e. no earlier than (K - capacity)
+   divided by the fill rate quantum/fillInterval - for EVERY i, k and n: the wait has no upper limit *)
+Theorem backlog_wait : forall p n k i r K, wf p -> 0 < n ->
+  nth_error (cumulate 0 (run p (binit p) (repeat (0, n) k))) i = Some (r, K) ->
+  K = (Z.of_nat i + 1) * n /\ 0 <= r /\ (K - capacity p) * fillInterval p <= quantum p * r.
+Proof.
+  intros p n k i r K Hwf Hn H.
+  split; [apply cumulate_run_repeat in H; lia|].
+  pose proof (never_early p _ Hwf (sorted_repeat0 n k) (positive_repeat n k Hn)) as NE.
+  pose proof (run_times_nonneg p _ (binit p) 0 0 Hwf ltac:(lia) (sorted_repeat0 n k) (positive_repeat n k Hn)) as NN.
+  rewrite Forall_forall in NE, NN. apply nth_error_In in H. specialize (NE _ H). specialize (NN _ H). cbn [fst snd] in *.
+  split; [exact NN|].
+  destruct Hwf as (Hc & Hq & HF).
+  assert (HkF : fillInterval p * (r / fillInterval p) <= r) by (apply Z.mul_div_le; lia).
+  assert (Hk0 : 0 <= r / fillInterval p) by (apply Z.div_pos; lia).
+  set (F := fillInterval p) in *. set (q := quantum p) in *. set (k' := r / F) in *. clearbody k' F q. nia.
+Qed.
+
+(* whatever W: some request of a long enough backlog waits longer than W (and it exists) *)
+Theorem wait_unbounded : forall p n W, wf p -> 0 < n ->
+  exists k r K, nth_error (cumulate 0 (run p (binit p) (repeat (0, n) (S k)))) k = Some (r, K) /\ W < r.
+Proof.
+  intros p n W Hwf Hn.
+  set (F := fillInterval p). set (q := quantum p).
+  set (k := Z.to_nat (capacity p + q * (Z.max 0 (W / F) + 1))).
+  destruct (cumulate_run_repeat_ex p n k (binit p) 0) as [r Hr].
+  exists k, r, (0 + (Z.of_nat k + 1) * n). split; [exact Hr|].
+  pose proof (never_early p _ Hwf (sorted_repeat0 n (S k)) (positive_repeat n (S k) Hn)) as NE.
+  rewrite Forall_forall in NE. specialize (NE _ (nth_error_In _ _ Hr)). cbn [fst snd] in NE.
+  destruct Hwf as (Hc & Hq & HF). fold F in NE, HF. fold q in NE, Hq.
+  assert (Hk : Z.of_nat k = capacity p + q * (Z.max 0 (W / F) + 1)).
+  { subst k. rewrite Z2Nat.id; [reflexivity|]. nia. }
+  assert (Hm : W < F * (W / F) + F).
+  { pose proof (Z.div_mod W F ltac:(lia)). pose proof (Z.mod_pos_bound W F HF). lia. }
+  assert (HrF : F * (r / F) <= r).
+  { destruct (Z.le_gt_cases 0 r); [apply Z.mul_div_le; lia|].
+    exfalso. assert (r / F < 0) by (apply Z.div_lt_upper_bound; lia). nia. }
+  set (d := r / F) in *. set (v := W / F) in *. clearbody d v k F q.
+  assert (q * (Z.max 0 v + 1) < q * d) by nia.
+  assert (Z.max 0 v + 1 < d) by nia. nia.
+Qed.
+
+(* ------------------------------------------------------------ the capped wait is NOT the valve *)
+Definition p500 : params := mkParams 500 1 2000000.
+
+Lemma search_500 : new_bucket_with_rate 500 500 = Some p500.
+Proof. vm_compute. reflexivity. Qed.
+
+(* two 16030-byte messages (a 16000-byte write as a frame) at 500 B/s.  Wait: released after 31.06 s and
+   63.12 s.  WaitMaxDuration(.., 30 s) with the result ignored (seeded change C19_r2m2): both refused,
+   no token taken, both released at time 0: 32060 bytes in an interval of length 0, where even the
+   bound with the largest message allows 16031 and the bucket never held more than 500 *)
+Lemma capped_wait_exceeds :
+  run p500 (binit p500) [(0, 16030); (0, 16030)] = [(31060000000, 16030); (63120000000, 16030)] /\
+  run_capped p500 (binit p500) 30000000000 [(0, 16030); (0, 16030)] = [(0, 16030); (0, 16030)] /\
+  released 0 0 (run_capped p500 (binit p500) 30000000000 [(0, 16030); (0, 16030)]) = 32060 /\
+  quantum p500 * (0 / fillInterval p500 - 0 / fillInterval p500 + 1) + Z.max (capacity p500) 16030 = 16031 /\
+  capacity p500 + quantum p500 * (0 / fillInterval p500) = 500.
+Proof. repeat split; vm_compute; reflexivity. Qed.
+
+(* non-vacuity of never_early / backlog_wait: waits of 15 s, 31 s, and of one hour *)
+Lemma never_early_inhabited :
+  cumulate 0 (run p1000 (binit p1000) [(0, 16401); (0, 16401)]) = [(15401000000, 16401); (31802000000, 32802)] /\
+  cumulate 0 (run p1000 (binit p1000) [(0, 3601000)]) = [(3600000000000, 3601000)] /\
+  nth_error (cumulate 0 (run p1000 (binit p1000) (repeat (0, 8000) 6))) 5 = Some (47000000000, 48000).
+Proof. repeat split; vm_compute; reflexivity. Qed.
